@@ -42,3 +42,7 @@ package format
 //@ field jsonCodec.* covered
 //@ field jsonCodec.useNumber immutable JSONCodec
 //@ field jsonCodec.disAllowUnknownFields immutable JSONCodec
+
+// no mutable package-level state (C12, and every property whose plan touches this package)
+//@ property C12
+//@ globals immutable
